@@ -74,9 +74,10 @@ def lab(kind, value):
 # ---------------------------------------------------------------- EBNF abstract syntax
 # ('sym', label) ('seq', [..]) ('alt', [..]) ('opt', x) ('star', x) ('plus', x)
 class _P:
-    def __init__(self, toks):
+    def __init__(self, toks, spelled=False):
         self.t = toks
         self.i = 0
+        self.spelled = spelled      # keep the spelling of quoted strings ('x' and "x" are then different labels)
 
     def peek(self):
         return self.t[self.i]
@@ -140,13 +141,13 @@ class _P:
             self.expect('OP', ')')
             return r
         if k in ('NAME', 'STRING'):
-            return ('sym', lab(k, v))
+            return ('sym', v if (self.spelled and k == 'STRING') else lab(k, v))
         raise GrammarSyntaxError('expected atom, got %s %r' % (k, v))
 
 
-def read_grammar(text):
+def read_grammar(text, spelled=False):
     """-> ordered list of (rule name, ebnf tree)"""
-    return _P(scan(text)).grammar()
+    return _P(scan(text), spelled).grammar()
 
 
 # ---------------------------------------------------------------- Thompson NFA
@@ -295,6 +296,7 @@ def trim(d):
 # ---------------------------------------------------------------- grammar-level analyses
 class Grammar:
     def __init__(self, text):
+        self.text = text
         self.rules = read_grammar(text)
         self.names = [n for n, _ in self.rules]
         self.tree = dict(self.rules)
@@ -413,6 +415,22 @@ class Grammar:
                 for t, ls in claim.items():
                     if len(ls) > 1:
                         out.append((n, s, t, sorted(ls)))
+        return out
+
+    def spelling_conflicts(self):
+        """(rule, state, token, [spellings]): two terminal arcs of one state of the automaton over the labels *as written*
+        that spell the same token differently ('x' and "x"): "two arcs of one state sharing a first token" too."""
+        out = []
+        for n, t in read_grammar(self.text, spelled=True):
+            d = determinize(rule_nfa(t))
+            for s, tr in enumerate(d.trans):
+                claim = {}
+                for l in tr:
+                    if l[:1] in ('"', "'"):
+                        claim.setdefault(ast.literal_eval(l), []).append(l)
+                for tok, ls in claim.items():
+                    if len(ls) > 1:
+                        out.append((n, s, tok, sorted(ls)))
         return out
 
     def follow(self, starts):
